@@ -144,7 +144,11 @@ def oracleSeg (a b c d : V2 Rat) (eps : Rat) (o : Option (SegInter Float)) : Str
         if !(near F1 F2 span) then "fail first-locations-differ" else
         if !(near S1 S2 span) then "fail second-locations-differ" else
         let L := a.add ((b.sub a).smul lo); let H := a.add ((b.sub a).smul hi)
-        if (near F1 L span && near S1 H span) || (near F1 H span && near S1 L span) then "pass"
+        if (near F1 L span && near S1 H span) || (near F1 H span && near S1 L span) then
+          -- tag: which branch of `between` each carrying segment takes (x / y coordinate, ascending / descending)
+          let cls (p q' : V2 Rat) : String :=
+            if p.x != q'.x then (if p.x < q'.x then "x+" else "x-") else (if p.y < q'.y then "y+" else "y-")
+          s!"pass collinear-overlap ab={cls a b} cd={cls c d}"
         else s!"fail wrong-overlap got=({F1.x},{F1.y})-({S1.x},{S1.y}) want=({L.x},{L.y})-({H.x},{H.y})"
 
 /-! ## oracles: polygons -/
@@ -308,7 +312,8 @@ def handler (fn : String) : Option Handler :=
       oracle := fun a o => match run (do let p ← pv2; let q' ← pv2; let r ← pv2; let e ← pf; pure (p, q', r, e)) a with
         | some (p, q', r, e) => oracleOrient (q2 p) (q2 q') (q2 r) (q e) o
         | none => "skip bad-args" }
-  | "segments_intersection2d" => some {
+  | "segments_intersection2d" | "segments_collinear_vertical" | "segments_collinear_horizontal"
+  | "segments_collinear_generic" => some {
       model := fun a => run (do let p ← pv2; let q' ← pv2; let r ← pv2; let s ← pv2; let e ← pf; pend
                                 pure (finter (segmentsIntersection2d p q' r s e))) a
       oracle := fun a o => match run (do let p ← pv2; let q' ← pv2; let r ← pv2; let s ← pv2; let e ← pf; pure (p, q', r, s, e)) a with
@@ -335,7 +340,7 @@ def handler (fn : String) : Option Handler :=
       oracle := fun a o => match run (do let p ← pv2; let q' ← pv2; let r ← pv2; let s ← pv2; pure (p, q', r, s)) a with
         | some (p, q', r, s) => oracleInTri (q2 p) (q2 q') (q2 r) (q2 s) o
         | none => "skip bad-args" }
-  | "convex_polygons_intersection_points" => some {
+  | "convex_polygons_intersection_points" | "convex_axis_edge_pair" => some {
       model := fun a => run (do let p1 ← plist pv2; let p2 ← plist pv2; pend
                                 let r := convexPolygonsIntersectionPoints p1.toArray p2.toArray defaultCollinearityEps
                                 pure (r.foldl (fun s v => s ++ " " ++ fv2 v) s!"{r.size}")) a
